@@ -18,6 +18,12 @@ def run(tier, seed, args):
     X = progs.xyz("single")
     srcs.append(progs.prog("fullrange", [progs.new(), progs.pc(X + [progs.rec("intensity", "int", progs.I64MIN, progs.I64MAX), progs.rec("rowIndex", "int", 4, 4)], 40, seed=seed), progs.FIN]))
     srcs.append(progs.prog("ext_records", [progs.new(), {"op": "ext", "ns": "ext", "url": "urn:x"}, progs.pc(X + [progs.rec("intensity", "int", 0, 9, ns="ext"), progs.rec("foo", "double", ns="ext")], 10, seed=seed), progs.FIN]))
+    # extension URLs with every character XML escapes, put into the SOURCE by text substitution (as a foreign producer would
+    # have written them), so that the copy alone exercises the writer's escaping
+    for i, esc in enumerate(("a&quot;b", "x&lt;y&gt;z", "q&amp;r&quot;&lt;&gt;&apos;s", "&#34;n&#60;")):
+        srcs.append(progs.prog(f"ext_url_escaped{i}", [progs.new(), {"op": "ext", "ns": "ext", "url": "urn:PLACEHOLDER"},
+                                                       progs.pc(X + [progs.rec("foo", "int", 0, 9, ns="ext")], 5, seed=seed),
+                                                       {"op": "finalize", "xml_replace": [["urn:PLACEHOLDER", "urn:" + esc]]}]))
     # two point clouds: the size of the first sweeps the start of the second (in the copy as well) over the page payload
     p0 = progs.small_protos()[0]
     for n1 in (range(1, 260) if tier == "thorough" else range(1, 131)):
